@@ -12,7 +12,8 @@
    property ([holds_b]) is a one-pass declarative reading of the
    description.  Definitions only: no proofs in this file. *)
 From Coq Require Import ZArith List Bool.
-From Desper Require Import Lib.Alist Loader.Value.
+From Desper Require Import Lib.Alist.
+From Desper Require Export Loader.Value.
 Import ListNotations.
 Open Scope Z_scope.
 
